@@ -966,7 +966,7 @@ impl TypedScenario for Script {
         enumerated(tier).len() as u64
             + match tier {
                 Tier::Quick => 120_000,
-                Tier::Thorough => 4_000_000,
+                Tier::Thorough => 24_000_000,
             }
     }
     fn generate(&self, seed: u64, tier: Tier, i: u64) -> Plan {
@@ -1226,6 +1226,9 @@ pub enum StatCfg {
     UintMod { limbs: usize, t: u64, j: usize, low: u8, boxed: bool },
     /// random_bits(b): b <= 10 all cells, else top 4 bits x bottom 4 bits
     Bits { limbs: usize, b: u32, boxed: bool },
+    /// random_bits(b) for EVERY b in 1..=64*limbs: each of the top two and the lowest requested bit must
+    /// come out both 0 and 1 within `per_len` draws (false-alarm probability <= 6 * 2^-per_len per length)
+    BitsEveryLength { limbs: usize, boxed: bool, int: bool, per_len: u32 },
     /// Odd<Uint<N>>: cells over bits 1..=8 ; bit 0 must be set
     Odd { limbs: usize },
     /// NonZero<Limb>/Uint random: cells over low byte
@@ -1349,6 +1352,13 @@ fn stat_configs(tier: Tier) -> Vec<StatCfg> {
     for &b in bl {
         v.push(StatCfg::Bits { limbs: 4, b, boxed: false });
         v.push(StatCfg::Bits { limbs: 4, b, boxed: true });
+    }
+    for (limbs, boxed, int) in [(1usize, false, false), (2, false, false), (4, false, false), (4, true, false), (2, false, true)] {
+        v.push(StatCfg::BitsEveryLength { limbs, boxed, int, per_len: 512 });
+    }
+    if tier == Tier::Thorough {
+        v.push(StatCfg::BitsEveryLength { limbs: 16, boxed: false, int: false, per_len: 512 });
+        v.push(StatCfg::BitsEveryLength { limbs: 17, boxed: true, int: false, per_len: 512 });
     }
     v.push(StatCfg::Odd { limbs: 1 });
     v.push(StatCfg::Odd { limbs: 2 });
@@ -1506,6 +1516,69 @@ fn exec_stat(p: &StatPlan, out: &mut RunOut) {
                 }, else { return });
             }
         }
+        StatCfg::BitsEveryLength { limbs, boxed, int, per_len } => {
+            // not a chi-square: an exact "both values of a bit are produced" check at every bit length
+            let q = Plan {
+                api: if *boxed { Api::BoxedRandomBitsPrec } else if *int { Api::IntRandomBits } else { Api::UintRandomBits },
+                limbs: *limbs,
+                front: Front::Infallible,
+                modulus: vec![],
+                bit_length: 0,
+                precision: 64 * *limbs as u32,
+                modulus_id: 0,
+                tape: TapePlan::default(),
+                compare_boxed: false,
+                enumerate_failures: false,
+                healthy_from: None,
+                recover: false,
+            };
+            let cfgsig = format!("{:?}", p.cfg).replace(' ', "");
+            let mut checked = 0u64;
+            for b in 1..=64 * *limbs as u32 {
+                let mut qq = q.clone();
+                qq.bit_length = b;
+                // bits watched: top (b-1), second (b-2), lowest (0)
+                let watch: Vec<u32> = if b >= 3 { vec![b - 1, b - 2, 0] } else if b == 2 { vec![1, 0] } else { vec![0] };
+                let mut seen = vec![[false; 2]; watch.len()];
+                for _ in 0..*per_len {
+                    match call(&qq, qq.api, &mut tape) {
+                        Res::Val { words, .. } => {
+                            if bits(&words) > b {
+                                out.viol("C19/range", format!("stat:{}", cfgsig), format!("random_bits({b}) returned {} with {} bits", hexw(&words), bits(&words)), None);
+                                return;
+                            }
+                            for (k, &bit) in watch.iter().enumerate() {
+                                let v = (words[(bit / 64) as usize] >> (bit % 64)) & 1;
+                                seen[k][v as usize] = true;
+                            }
+                            checked += 1;
+                        }
+                        other => {
+                            out.viol("C19/error-spurious", format!("stat:{}", cfgsig), format!("random_bits({b}) on a healthy stream returned {}", other.kind()), None);
+                            return;
+                        }
+                    }
+                }
+                for (k, &bit) in watch.iter().enumerate() {
+                    if !(seen[k][0] && seen[k][1]) {
+                        out.viol(
+                            "C19/never-produced",
+                            format!("stat:{}", cfgsig),
+                            format!("random_bits(bit_length={b}): bit {bit} was {} in all {} draws from a uniform stream", if seen[k][1] { "1" } else { "0" }, per_len),
+                            None,
+                        );
+                        return;
+                    }
+                }
+            }
+            out.ev(&format!("stat/bits-every-length/{}/{}", cfgsig, checked));
+            out.add("stat:draws", checked);
+            out.count("probe:uniformity-tests");
+            out.count("probe:every-bit-length-bit-frequency-checked");
+            out.state(format!("stat|{}", cfgsig));
+            out.sample = Some(json!({"config": cfgsig, "draws": checked, "check": "each of the top two and the lowest requested bit takes both values at every bit length"}));
+            return;
+        }
         StatCfg::Odd { limbs } => {
             with_limbs!(*limbs, N, {
                 run!(256, vec![1.0 / 256.0; 256], format!("Odd<Uint<{}>>::random", N), |t: &mut Tape| {
@@ -1642,7 +1715,7 @@ impl TypedScenario for Stat {
             seed: mix(seed, 0x1905, i),
             draws: match tier {
                 Tier::Quick => 1_000_000,
-                Tier::Thorough => 10_000_000,
+                Tier::Thorough => 30_000_000,
             },
         }
     }
